@@ -16,6 +16,10 @@ CHECKS = {
    text="Each case is one generated program (routines on SystemClock/TempoClocks, tempo and beats changes, pause/resume/stop, Condition and FlowVar, seeded random draws through every builtin kind, bundle sends) executed by real sc3 in the RT world under bounded seeded jitter and scheduling, in the NRT world twice (byte-identical scores required) and in the NRT world with unrelated generators perturbed; RT and NRT per-routine traces (logical times, values, bundles) must agree for programs that are logically well-synchronised (no two events on different clocks touching the same state within 1/128 s, no overdue task), the others are counted and skipped. Exploration, not proof.",
    note="Well-synchronisedness is decided from the NRT timeline; RT jitter is bounded to 2 ms + 5 us per step so that physical order follows logical order; AppClock is excluded (physical by design).",
    tech="deterministic simulation with fault injection (differential RT-under-jitter vs NRT vs NRT-perturbed runs of one program)"),
+ 'C11': dict(
+   text="Three workloads: (seq) tape-generated histories of next/send, play, pause, resume, stop, reset on routines with scripted bodies (yield numbers/other values, return, raise, YieldAndReset, AlwaysYield, StopStream, nested routines, self-directed pause/stop/reset) checked op by op against a sequential state-machine model incl. current-thread/parent-chain restoration; (sync) real sc3 in the simulated RT world under faults with routines waiting on Conditions/FlowVars while the driver, user threads and other routines signal, unhang and set tests/values - every continuation must be justified, happen exactly once, not be missing at quiescence, and no routine may resume before its yielded delay; (ctl) pause/resume/stop applied concurrently to playing routines - transition table at the linearisation point, no body step while Paused/Done. Exploration, not proof.",
+   note="Concurrent operations are linearised by holding the re-entrant main lock around each harness operation; seq cases involve no scheduler.",
+   tech="deterministic simulation with fault injection (concurrent op histories on simulated clocks vs state-machine/condition models; sequential model-based histories)"),
  'C12': dict(
    text="Generated programs of routines that read and change tempo, beats and meter of 1-3 TempoClocks (tempo changes landing while the clock thread sleeps), query next_time_on_grid/next_bar/bar/beat_in_bar/conversions and play children with quants, run by real sc3 in RT fault-free, RT under seeded faults and NRT; round-trip, continuity, congruence/earliest, bar and meter laws at every query/change, beats-advance and quantised child start from the execution trace, whole trace vs affine-map model for programs without map changes. Exploration, not proof.",
    note="Reference points within 1e-7 of a grid point are accepted on either side; what a map change does to pending wake-ups is left to C10.",
